@@ -65,8 +65,8 @@ class State:
 
 
 class C14System:
-    def __init__(self, names, ending, max_emits):
-        self.names, self.ending, self.max_emits = names, ending, max_emits
+    def __init__(self, names, ending, max_emits, formatters=False):
+        self.names, self.ending, self.max_emits, self.formatters = names, ending, max_emits, formatters
 
     def fresh(self):
         return State(self.names, self.ending)
@@ -92,7 +92,10 @@ class C14System:
         if st.emits < self.max_emits:
             for e in EMITS:
                 ops.append(["emit", [e]])
-        ops += [["flush"], ["teardown"]]
+        ops += [["flush"], ["teardown"], ["teardown", [False]]]
+        if self.formatters:
+            # the formatter object is replaced on the live builder (other line ending), or re-configured in place
+            ops += [["set_formatter", ["\\r\\n"]], ["set_formatter", ["\\n"]], ["set_line_endings", ["\\r\\n"]], ["set_line_endings", ["\\n"]]]
         return ops
 
     def read(self, st, n):
@@ -130,7 +133,19 @@ class C14System:
             elif name == "flush":
                 g.flush()
             elif name == "teardown":
-                g.teardown()
+                if len(op) > 1:
+                    g.teardown(*op[1])
+                else:
+                    g.teardown()
+            elif name == "set_formatter":
+                from gscrib.formatters import DefaultFormatter
+                fmt = DefaultFormatter()
+                fmt.set_line_endings(op[1][0])
+                g.set_formatter(fmt)
+                st.end = op[1][0].encode().decode("unicode-escape").encode("utf-8")
+            elif name == "set_line_endings":
+                g.format.set_line_endings(op[1][0])
+                st.end = op[1][0].encode().decode("unicode-escape").encode("utf-8")
         except Exception as e:   # noqa: BLE001
             exc = e
         st.last_exc, st.last_rejected = exc, exc is not None
@@ -202,14 +217,14 @@ class C14System:
             i += 1
 
     def canon(self, st):
-        return (tuple(st.registry), self.real_registry(st), tuple((n, st.open[n], digest(st.log[n]), digest(st.session[n])) for n in self.names), st.emits)
+        return (tuple(st.registry), self.real_registry(st), tuple((n, st.open[n], digest(st.log[n]), digest(st.session[n])) for n in self.names), st.emits, st.end)
 
     def outcome(self, st):
         return (tuple(st.registry), st.emits, type(st.last_exc).__name__ if st.last_exc else None)
 
 
 RULE = ("BFS over histories of add_writer/remove_writer (path-based FileWriters, FileWriter over an open UTF-8 text file and over an open binary file, custom recording writers), "
-        "three emitting calls incl. a non-ASCII comment (at most N emits per history), flush and teardown on the real GCodeBuilder, for both line endings; reference model = ordered duplicate-free "
+        "three emitting calls incl. a non-ASCII comment (at most N emits per history), flush, teardown() and teardown(False) on the real GCodeBuilder, for both line endings, plus a configuration where the formatter is replaced (set_formatter) or its line ending re-configured between writes; reference model = ordered duplicate-free "
         "registry + per-writer byte log + per-path session log (a path-based writer truncates when it re-opens after a disconnect); recorders checked after every call, file contents "
         "after flush and teardown, teardown must disconnect and forget every writer and leave caller-owned streams open; distinct = distinct (registry, per-writer logs, sessions)")
 ASSUMPTIONS = ["not demanded: that teardown pushes a caller-owned buffered file to disk (the harness flushes the object it owns before reading it back)",
@@ -220,10 +235,12 @@ def systems(tier):
     if tier == "quick":
         return [("lf-4writers", C14System(["pathA", "text", "rec1", "rec2"], "\\n", 2), 5, None),
                 ("crlf-3writers", C14System(["rec1", "pathA", "binary"], "\\r\\n", 2), 5, None),
-                ("output-option", C14System(["cfgpath", "rec1", "codecs"], "\\n", 2), 4, None)]
+                ("output-option", C14System(["cfgpath", "rec1", "codecs"], "\\n", 2), 4, None),
+                ("formatter-replaced", C14System(["rec1", "pathA"], "\\n", 2, formatters=True), 4, None)]
     return [("lf-5writers", C14System(["pathA", "pathB", "text", "rec1", "rec2"], "\\n", 3), 6, None),
             ("crlf-4writers", C14System(["rec1", "pathA", "binary", "text"], "\\r\\n", 3), 7, None),
-            ("output-option", C14System(["cfgpath", "rec1", "pathA", "codecs"], "\\n", 3), 6, None)]
+            ("output-option", C14System(["cfgpath", "rec1", "pathA", "codecs"], "\\n", 3), 6, None),
+            ("formatter-replaced", C14System(["rec1", "pathA", "text"], "\\n", 3, formatters=True), 5, None)]
 
 
 def run(tier, seed):
